@@ -194,7 +194,8 @@ def run(chk):
                 hook.ACTIVE_CUTS[("eko.kernels.singlet", "r_vec", ordn)] = mk()
             vnp.ABSTRACT_ARRAY_HOOK[0] = on_arr
             try:
-                s.r_vec(G[:order], bsym[:order], (Ksym, 0), (order, 0), is_exact)
+                # requires ev_op_max_order >= order - 1 (smaller values are refused with ValueError, C04)
+                chk.run_paths(f"{tag}.run", lambda: s.r_vec(G[:order], bsym[:order], (Ksym, 0), (order, 0), is_exact), [Ksym >= order - 1], fn=fnr, replay=rp)
             finally:
                 vnp.ABSTRACT_ARRAY_HOOK[0] = None
                 hook.ACTIVE_CUTS.clear()
